@@ -249,6 +249,12 @@ def c09_runs(tier, hb=0):
                          'env.signal-delivered-at-syscall-boundary'],
                         preempt=3, R=1, T=1, N=1, S=2, cfg=cfg, ownerpost=1, hb=hb))
     r.append(mt_run('two-events.poll', 'harness/eventraw.c', cv, preempt=3, R=2, T=2, N=2, cfg=0, method=3, hb=hb))
+    # bursts of any size against the real buffer sizes of the code: the number of bytes pending in a
+    # 64 KiB pipe (and in a pipe exactly as large as the handler's read buffer) is a solver unknown
+    r.append(mt_run('burst.unknown-size.pipe64k', 'harness/eventraw.c', ['raw.symbolic-burst', 'raw.handler-ran'],
+                    preempt=0, R=1, T=1, N=1, cfg=2, pipecap=65536, symburst=1, hb=hb))
+    r.append(mt_run('burst.unknown-size.pipe1k', 'harness/eventraw.c', ['raw.symbolic-burst', 'raw.handler-ran'],
+                    preempt=0, R=1, T=1, N=1, cfg=2, pipecap=1024, symburst=1, hb=hb))
     return r
 
 
@@ -280,7 +286,10 @@ def c11_runs(tier, hb=0):
          mt_run('spawn+kill', h, cv + ['wait.spawn-child-ran', 'wait.kill-forwarded', 'env.fork-child-copy-explored'],
                 preempt=2, C=2, strangers=1, events=3, spawn=1, kill=1, ops=2, hb=hb),
          mt_run('kill.poll', h, ['wait.termination-delivered', 'wait.kill-forwarded', 'wait.quiescent'],
-                preempt=1 if q else 2, C=2, strangers=0, events=4 if q else 5, kill=1, ops=2, poll=1, hb=hb)]
+                preempt=1 if q else 2, C=2, strangers=0, events=4 if q else 5, kill=1, ops=2, poll=1, hb=hb),
+         mt_run('two-loops.spawn-exits-at-once', h,
+                ['wait.two-loop-threads', 'wait.spawned-child-exits-at-once', 'wait.termination-delivered'],
+                preempt=2, C=1, strangers=0, events=0 if q else 1, twoloops=1, unreg=0, hb=hb)]
     return r
 
 
@@ -529,7 +538,8 @@ CHECKS = {
                            'pid while it was registered; nothing after termination; no zombie at quiescence; kill never '
                            'reaches a pid whose termination was reaped; strangers are harmless.',
             'bounds': {'quick': '2-3 children (0-1 strangers), 3-4 state changes, 2 handler operations, preemption '
-                                'bound 1-2, interests in one thread', 'thorough': '4-5 state changes, bound 2'},
+                                'bound 1-2, interests in one thread; plus two loop threads with one interest each, '
+                                'one of them spawning a child that exits at once', 'thorough': '4-5 state changes, bound 2'},
             'outside': 'interests spread over several threads with registrations concurrent to reaping (the ghost '
                        'set cannot be kept in step with the library\'s locked tree from outside); pid reuse',
             'assumptions': ENV_ASSUMPTIONS},
